@@ -18,7 +18,17 @@ fn sentinel_case(cv: &Conv) -> Case {
             cmds.push(Cmd::ping());
         }
     }
-    Case::new(cmds, cv.scripts.clone())
+    let mut scripts = cv.scripts.clone();
+    if cv.over() {
+        // the connection has to be over: none of these may reach the shim or be answered
+        cmds.push(Cmd::close(1));
+        cmds.push(Cmd::prepare(b"after the end"));
+        scripts.push(Script::PrepOk { id: 9, params: vec![], cols: vec![] });
+        cmds.push(Cmd::query(b"after the end"));
+        scripts.push(Script::Q(QProg::completed(0, 0)));
+        cmds.push(Cmd::ping());
+    }
+    Case::new(cmds, scripts)
 }
 
 fn judge(prop: &'static str, obs: &Obs, cv: &Conv, rep: &mut Report, d: &dyn Fn() -> J, conformance: bool) {
@@ -249,6 +259,7 @@ pub fn run_c10(ctx: &Ctx) -> Report {
         judge("C10", &obs, &cv, rep, &d, true);
     });
     rep.merge(r);
+    rep.merge(super::mega::run(ctx, "C10", 1500, 60000));
     if ctx.strict() {
         rep.require("illegal_operations_expected_refused", 10);
         rep.require("closes_expected", 10);
@@ -297,7 +308,8 @@ pub fn run_c16(ctx: &Ctx) -> Report {
     let n = if ctx.miri { 3 } else { ctx.n(6000, 300_000) };
     let r = par_cases(ctx, "C16", "hist", n, |rng, i, rep| {
         let mut cv = Conv::default();
-        let counts = [1usize, 2 + rng.below(3) as usize, 9 + rng.below(9) as usize];
+        // half of the histories use statements with EQUAL parameter counts: foreign types then fit
+        let counts = if rng.bool() { let c = 1 + rng.below(3) as usize; [c, c, c] } else { [1usize, 2 + rng.below(3) as usize, 9 + rng.below(9) as usize] };
         let ids = [11u32, 12, 13];
         let mut bound: [Option<Vec<(u8, bool)>>; 3] = [None, None, None];
         for k in 0..3 {
@@ -374,6 +386,7 @@ pub fn run_c16(ctx: &Ctx) -> Report {
         judge("C16", &obs, &cv, rep, &d, false);
     });
     rep.merge(r);
+    rep.merge(super::mega::run(ctx, "C16", 1500, 60000));
     if ctx.strict() {
         rep.require("reuse_executions", 100);
         rep.require("rebind_executions", 100);
@@ -429,7 +442,8 @@ pub fn run_c17(ctx: &Ctx) -> Report {
                         .map(|j| {
                             let is_long = rr == 0 && pending[k].contains_key(&(j as u16));
                             if is_long {
-                                Param { typ: wire::T_BLOB, unsigned: false, value: None, long: true }
+                                let all = param_types();
+                                Param { typ: *rng.pick(&all), unsigned: rng.bool(), value: None, long: true }
                             } else {
                                 uniq += 1;
                                 match rng.below(4) {
@@ -495,6 +509,7 @@ pub fn run_c17(ctx: &Ctx) -> Report {
         });
         rep.merge(r);
     }
+    rep.merge(super::mega::run(ctx, "C17", 1500, 60000));
     if ctx.strict() {
         rep.require("chunks_sent", 100);
         rep.require("long_data_parameters_expected", 100);
